@@ -371,7 +371,7 @@ int main() {
     while (is >> w) tk.t.push_back(w);
     if (tk.t.empty()) continue;
     int ts = static_cast<int>(tk.n());
-    alarm(20);
+    alarm(6);   // a sequential run that spins on a buffer nobody allocates never ends
     switch (ts) {
       // element of 256 bytes: kDefaultCapacity 2, first bucket length 1 (the smallest)
       case 0: runCase<life::L<256, 0>, Tr<true, RS::kAsNeeded, true>>(ts, tk); break;
